@@ -55,14 +55,16 @@ EOLS = ["", "\n", "\r\n"]
 
 def alphabet(d):
     other = ";" if d == "," else ","
-    return ["a", "b", d, other, '"', "'", " ", "é", "€"]
+    # non-ASCII: two ordinary letters, the byte order mark, and characters that str.splitlines() (but neither CSV nor
+    # a file read line by line) takes for line breaks
+    return ["a", "b", d, other, '"', "'", " ", "é", "€", "\ufeff", "\u2028", "\x85", "\x0c"]
 
 
 def gen_field(rng, d):
     al = alphabet(d)
     n = rng.choice([0, 0, 1, 1, 2, 2, 3, 4, 6])
     # bias towards quotes and delimiters
-    w = [2, 1, 3, 1, 4, 1, 1, 1, 1]
+    w = [2, 1, 3, 1, 4, 1, 1, 1, 1, 0.4, 0.3, 0.2, 0.2]
     return "".join(rng.choices(al, w, k=n))
 
 
